@@ -241,6 +241,10 @@ func CheckUciHistory(sc *Scenario, out *UciRunOut, res *RunResult) {
 					res.count("depth_samples", 1)
 				}
 			}
+			// (whether stopped or not: an iteration beyond the depth limit is never completed)
+			if g.limits.Depth > 0 && g.lastDepth > g.limits.Depth {
+				res.addViolation("C13", "depth_exceeded", fmt.Sprintf("%q on %s: completed iteration %d", g.line, g.root.Fen(), g.lastDepth))
+			}
 			if g.limits.Nodes > 0 && g.lastNodes > int64(g.limits.Nodes)+int64(len(legalRoot))+nodesOvershootAdd {
 				res.addViolation("C13", "nodes_overshoot", fmt.Sprintf("%q on %s: info reports %d nodes", g.line, g.root.Fen(), g.lastNodes))
 			}
